@@ -12,7 +12,9 @@ residual.  Additional direct checks: poly.normalize idempotent + value preservin
 interval bounds enclose sampled values, parse_expr(str(e)) == e.
 
 Workloads: (R) every recorded step of integral/examples/*.json re-executed read-only, (G) generated
-integrands with generated rule parameters, (A) auxiliary direct checks.
+integrands with generated rule parameters, (A) auxiliary direct checks, (I) every identity of the book files that
+carries side conditions, applied by every rule that can apply it in contexts establishing all / each proper subset /
+the negation of exactly one of its conditions (parameter values drawn from the context, not from the identity).
 """
 import os, io, json, contextlib, traceback
 from fractions import Fraction
@@ -51,14 +53,18 @@ REQUIRED = {'quick': {'recorded_steps_executed': 1300, 'top_calls_judged': 1500,
                       'judged:Equation': 150, 'judged:SplitRegion': 25, 'judged:ExpandPolynomial': 25, 'judged:Linearity': 25,
                       'judged:SubstitutionInverse': 25, 'judged:ApplyIdentity': 100, 'judged:DefiniteIntegralIdentity': 100,
                       'aux_normalize_checked': 100, 'aux_deriv_checked': 100, 'aux_bounds_checked': 80,
-                      'aux_bounds_samples': 10000, 'aux_printparse_checked': 500, 'oracle_calibration_ok': 1},
+                      'aux_bounds_samples': 10000, 'aux_printparse_checked': 500, 'oracle_calibration_ok': 1,
+                      'idcond_cases': 250, 'idcond_multi_condition_identities': 15, 'idcond_rewritten:all': 50,
+                      'idcond_context:subset': 80, 'idcond_context:negated': 60, 'judged:SimplifyIdentity': 20},
             'thorough': {'recorded_steps_executed': 1300, 'top_calls_judged': 5000, 'top_held': 3500, 'inner_calls_judged': 2000,
                          'gen_cases': 15000, 'judged:Substitution': 500, 'judged:IntegrationByParts': 200,
                          'judged:FullSimplify': 1500, 'judged:Equation': 300, 'judged:SplitRegion': 100,
                          'judged:ExpandPolynomial': 100, 'judged:Linearity': 100, 'judged:SubstitutionInverse': 100,
                          'judged:ApplyIdentity': 200, 'judged:DefiniteIntegralIdentity': 200,
                          'aux_normalize_checked': 1000, 'aux_deriv_checked': 1000, 'aux_bounds_checked': 800,
-                         'aux_bounds_samples': 100000, 'aux_printparse_checked': 5000, 'oracle_calibration_ok': 1}}
+                         'aux_bounds_samples': 100000, 'aux_printparse_checked': 5000, 'oracle_calibration_ok': 1,
+                         'idcond_cases': 250, 'idcond_multi_condition_identities': 15, 'idcond_rewritten:all': 50,
+                         'idcond_context:subset': 80, 'idcond_context:negated': 60, 'judged:SimplifyIdentity': 20}}
 SHARD_TIMEOUT = {'quick': 300, 'thorough': 3600}
 
 BOOKS = ['base', 'tongji', 'UCDavis', 'MIT', 'interesting']
@@ -485,6 +491,18 @@ def classify(fr, res, o_sh, conds, defs, deps, rng, budget):
         cls = '%s(%s)' % (cls, icls)
     extra = None
     e = fr.e_sh
+    idn = (fr.driver or {}).get('identity')
+    if idn and idn.get('context_kind') != 'all':
+        # the workload applied an identity in a context that does not establish all of its side conditions
+        try:
+            from vf import oracle_c19_gen as G
+            bad = G.identity_conds_false_at(res.get('draws', []), idn.get('conds', []), defs)
+        except Exception:
+            bad = []
+        if bad:
+            return (icls if fr.cls in WRAPPERS else fr.cls) + ':identity-applied-without-its-side-condition', \
+                'identity %s requires %s; context (%s) does not give %s and it is false at the draws' % (
+                    idn.get('expr'), idn.get('conds'), idn.get('context_kind'), bad)
     try:
         if icls in ('Substitution', 'SubstitutionInverse') and what in ('value-changed', 'sign-flipped'):
             # locate the integral the rule worked on and look at the monotonicity of the substitution
@@ -743,8 +761,13 @@ def shards(tier, seed):
     ngen = 4 if tier == 'quick' else 48
     per = 90 if tier == 'quick' else 420
     out += [{'kind': 'gen', 'i': i, 'count': per} for i in range(ngen)]
-    naux = 2 if tier == 'quick' else 8
-    out += [{'kind': 'aux', 'i': i, 'count': 220 if tier == 'quick' else 600} for i in range(naux)]
+    naux = 1 if tier == 'quick' else 8
+    out += [{'kind': 'aux', 'i': i, 'count': 440 if tier == 'quick' else 600} for i in range(naux)]
+    if tier == 'quick':
+        out += [{'kind': 'idcond', 'i': 0, 'books': ['base', 'interesting'], 'osc': ['base']}]
+    else:
+        out += [{'kind': 'idcond', 'i': 0, 'books': ['base'], 'osc': ['base']}]
+        out += [{'kind': 'idcond', 'i': 1 + j, 'books': ['interesting'], 'osc': ['interesting'], 'part': [j, 6]} for j in range(6)]
     return out
 
 
@@ -802,6 +825,9 @@ def run_shard(vctx, spec):
     elif spec['kind'] == 'aux':
         from vf import oracle_c19_gen as c19_gen
         c19_gen.run_aux(vctx, mon, spec['count'])
+    elif spec['kind'] == 'idcond':
+        from vf import oracle_c19_gen as c19_gen
+        c19_gen.run_idcond(vctx, mon, spec['books'], osc_books=spec.get('osc', ()), part=spec.get('part'))
     vctx.count('rule_classes_called_in_shard', len({k[6:] for k in vctx.counters if k.startswith('calls:')}))
 
 
